@@ -248,6 +248,12 @@ func (t *NetTransport) DialTimeout(addr string, timeout time.Duration) (net.Conn
 
 // See NodeAwareTransport.
 func (t *NetTransport) DialAddressTimeout(a Address, timeout time.Duration) (net.Conn, error) {
+	// Once shut down, nothing may reach the network anymore. Closing the
+	// listeners does not stop outbound dials, so refuse them here.
+	if t.shutdown.Load() == 1 {
+		return nil, fmt.Errorf("transport is shut down")
+	}
+
 	addr := a.Addr
 
 	dialer := net.Dialer{Timeout: timeout}
